@@ -5,6 +5,7 @@ import NbioVerif.Lemmas.C09AutoLen
 import NbioVerif.Lemmas.C09Account
 import NbioVerif.Lemmas.C09ReadFrom
 import NbioVerif.Lemmas.C09FlushClose
+import NbioVerif.Lemmas.C09Trailer
 /-! C09 HTTP response framing — property theorems over the model `Resp` (nbhttp/response.go). -/
 namespace Resp
 
@@ -264,14 +265,17 @@ theorem runB_accepted_mem (g : Cfg) (ops : List BOp) (r : R) : ∀ d ∈ (runB g
 
 /-- **C09 stage 1.** For every head encoder `g.head` (every head byte string `H`), every header map, status
 and body-phase program with `sane g hdr ops`, on a connection that accepts the writes:
-`wire = H ++ F`; the framing is chunked iff the RFC 7230 §3.3 rule says so for (request version, handler
+`wire = H ++ F` where `H` is what the head encoder made of a state `rE` with the handler's status code, reason
+phrase and the decided framing flag; the framing is chunked iff the RFC 7230 §3.3 rule says so for (request version, handler
 headers, status); identity: `F` is the concatenation of the accepted writes; chunked: the reference decoder
 turns `F` into that concatenation (and the trailer section).  Together with `c09_write_returns_len`
 (every successful write returns `|data|`) this is the framing half of C09. -/
 theorem c09_stage1 (g : Cfg) (hg : g.failAt = 0) (hdr : Header) (sc : Nat) (st : Bytes) (ops : List BOp)
     (hs : sane g hdr ops = true) :
     (body0 g hdr sc st).chunked = rfcChunked g.proto11 hdr (if sc = 0 then 200 else sc) ∧
-    ∃ (H F : Bytes), wireOf g hdr sc st ops = H ++ F ∧
+    ∃ (rE : R) (F : Bytes),
+      Line (fun _ => True) (body0 g hdr sc st).statusCode (body0 g hdr sc st).status (body0 g hdr sc st).chunked rE ∧
+      wireOf g hdr sc st ops = g.head rE ++ F ∧
       ((body0 g hdr sc st).chunked = false → F = (accepted g hdr sc st ops).flatten) ∧
       ((body0 g hdr sc st).chunked = true →
         ∃ T, unchunk ((nonEmpty (accepted g hdr sc st ops)).length + 1) F =
@@ -285,8 +289,8 @@ theorem c09_stage1 (g : Cfg) (hg : g.failAt = 0) (hdr : Header) (sc : Nat) (st :
     have := (hall _ (runB_accepted_mem g ops _ d hd)).2
     simpa [BOp.sizeOk] using this
   refine ⟨c09_framing_choice g hdr sc st hf, ?_⟩
-  obtain ⟨rE, F, _, w, h1, h2⟩ := c09_stage1_unframe g hg hdr sc st ops hok hsz
-  refine ⟨g.head rE, F, w, h1, ?_⟩
+  obtain ⟨rE, F, hl, w, h1, h2⟩ := c09_stage1_unframe g hg hdr sc st ops hok hsz
+  refine ⟨rE, F, hl, w, h1, ?_⟩
   intro hc
   obtain ⟨T, hT, _⟩ := h2 hc
   exact ⟨T, hT⟩
@@ -311,6 +315,36 @@ theorem c09_driver_run (g : Cfg) (pre : List Op) (hpre : ∀ op ∈ pre, op.head
   rw [run_bridge g pre hpre bops hb]
   exact ⟨rfl, rfl⟩
 
+/-- **C09, the `accepted` of the theorems is what the driver prints.** The per-operation results `n=`/`err=` that
+`respdrv` prints (and the check compares with the implementation's) are `(run g {} prog).2`; the list `accepted` all
+framing theorems speak about is read off them: the payloads of the Writes whose printed result is a success. -/
+theorem c09_driver_results (g : Cfg) (pre : List Op) (hpre : ∀ op ∈ pre, op.headerPhase = true)
+    (bops : List BOp) (hb : bodyStart bops) :
+    accepted g (run g {} pre).1.header (run g {} pre).1.statusCode (run g {} pre).1.status bops =
+      acceptedOf bops ((run g {} (pre ++ bops.map BOp.toOp)).2.drop pre.length) := by
+  obtain ⟨h1, _⟩ := run_pre g pre [] {} hpre rfl
+  obtain ⟨r1, r2⟩ := run_pre_res g pre (bops.map BOp.toOp) {} hpre rfl
+  rw [r1, ← r2, List.drop_left]
+  rw [← runB_results]
+  show (runB g (checkChunked g (writeHeader200 (start _ _ _))) bops).2 = _
+  unfold HeaderOnly at h1
+  rw [← h1]
+  by_cases hne : bops = []
+  · subst hne; rfl
+  · have := runB_prelude_ne g bops (run g {} pre).1 hne hb
+    unfold prelude at this
+    rw [this]
+
+/-- **C09, bridge for a ReadFrom after the body phase**: for `pre ++ body ++ [ReadFrom]` with a non-empty body phase
+the driver's final state is `readFrom` applied to the theorems' `endState` (so `c09_readfrom_appends` speaks about
+the function the driver runs; with an empty body phase that is `c09_readfrom_serve_content`). -/
+theorem c09_driver_run_readfrom (g : Cfg) (pre : List Op) (hpre : ∀ op ∈ pre, op.headerPhase = true)
+    (bops : List BOp) (hne : bops ≠ []) (hb : bodyStart bops) (k : RKind) (data : Bytes) :
+    finish g (run g {} (pre ++ (bops.map BOp.toOp ++ [.readFrom k data]))).1 =
+      finish g (readFrom g (endState g (run g {} pre).1.header (run g {} pre).1.statusCode (run g {} pre).1.status bops)
+        k data).1 := by
+  rw [run_bridge_readFrom g pre hpre bops hne hb k data]
+
 /-- **C09 stage 1 on the driver's function**: `c09_stage1` restated for `finish (run g {} (pre ++ body))`. -/
 theorem c09_stage1_driver (g : Cfg) (hg : g.failAt = 0) (pre : List Op) (hpre : ∀ op ∈ pre, op.headerPhase = true)
     (bops : List BOp) (hb : bodyStart bops) (hs : sane g (run g {} pre).1.header bops = true) :
@@ -318,12 +352,15 @@ theorem c09_stage1_driver (g : Cfg) (hg : g.failAt = 0) (pre : List Op) (hpre : 
     let wire := (finish g (run g {} (pre ++ bops.map BOp.toOp)).1).1.wire.flatten
     let acc := accepted g r0.header r0.statusCode r0.status bops
     let ch := rfcChunked g.proto11 r0.header (if r0.statusCode = 0 then 200 else r0.statusCode)
-    ∃ (H F : Bytes), wire = H ++ F ∧
+    ∃ (rE : R) (F : Bytes),
+      Line (fun _ => True) (body0 g r0.header r0.statusCode r0.status).statusCode
+        (body0 g r0.header r0.statusCode r0.status).status ch rE ∧
+      wire = g.head rE ++ F ∧
       (ch = false → F = acc.flatten) ∧
       (ch = true → ∃ T, unchunk ((nonEmpty acc).length + 1) F = some (acc.flatten, T)) := by
   intro r0 wire acc ch
-  obtain ⟨e, H, F, w, h1, h2⟩ := c09_stage1 g hg r0.header r0.statusCode r0.status bops hs
-  refine ⟨H, F, ?_, ?_, ?_⟩
+  obtain ⟨e, rE, F, hl, w, h1, h2⟩ := c09_stage1 g hg r0.header r0.statusCode r0.status bops hs
+  refine ⟨rE, F, by rw [e] at hl; exact hl, ?_, ?_, ?_⟩
   · show (finish g (run g {} (pre ++ bops.map BOp.toOp)).1).1.wire.flatten = _
     rw [(c09_driver_run g pre hpre bops hb).1]; exact w
   · intro hc; exact h1 (by rw [e]; exact hc)
@@ -379,8 +416,8 @@ theorem c09_stage2_head (g : Cfg) (hg : g.failAt = 0) (hreal : g.head = headByte
 
 /-- **C09 stage 2, head and framing agree.** Under the hypotheses of `c09_stage2_head`, with satisfiable
 framing requests and `Transfer-Encoding` not declared as a trailer: in chunked mode the parsed head contains the
-field `Transfer-Encoding: chunked` and NO `Content-Length` field (neither the handler's nor an automatic one);
-in identity mode no automatic or handler field announces chunked coding. -/
+field `Transfer-Encoding: chunked` and NO `Content-Length` field (neither the handler's nor an automatic one).
+(Only this direction is stated; for identity framing see `c09_framing_rfc` on the header map.) -/
 theorem c09_stage2_head_framing (g : Cfg) (hg : g.failAt = 0) (hreal : g.head = headBytes g)
     (hdr : Header) (sc : Nat) (st : Bytes) (ops : List BOp) (hok : ∀ op ∈ ops, op.ok)
     (htr : ∀ op ∈ ops, op.trailerOnly (body0 g hdr sc st).header)
@@ -433,6 +470,80 @@ theorem c09_stage2_trailers (r : R) (X : Bytes)
     parseHeaders ((trailerPairs r).length + 1) (renderPairs (trailerPairs r) ++ 13 :: 10 :: X) =
       some (trailerPairs r, X) :=
   ⟨lastChunk_normal r, parseHeaders_trailers r X hk hv⟩
+
+theorem runB_trk (g : Cfg) (h0 : Header) (ops : List BOp) (r : R) (hok : ∀ op ∈ ops, op.ok)
+    (htr : ∀ op ∈ ops, op.trailerOnly h0) (hp : Pre r) (hs : SameHead h0 r.header) (h : TrK h0 r) :
+    TrK h0 (runB g r ops).1 ∧ SameHead h0 (runB g r ops).1.header ∧ Pre (runB g r ops).1 := by
+  induction ops generalizing r with
+  | nil => exact ⟨h, hs, hp⟩
+  | cons op t ih =>
+    have hok' : ∀ op ∈ t, op.ok := fun o ho => hok o (List.mem_cons_of_mem _ ho)
+    have htr' : ∀ op ∈ t, op.trailerOnly h0 := fun o ho => htr o (List.mem_cons_of_mem _ ho)
+    have hk : hget r.header kTrailer = hget h0 kTrailer := hs.2 kTrailer (by decide)
+    cases op with
+    | write d =>
+      simp only [runB]
+      have h1 := write_trk g h0 r d hp hk h
+      have hproj : (write g r d).1.header = r.header ∧ Pre (write g r d).1 := by
+        by_cases hne : d = []
+        · subst hne; simpa [write] using hp
+        · rw [write_unfold g r d hne hp]
+          obtain ⟨p1, _, _, p4, p5⟩ := writeBody_proj g { r with hasBody := true } d
+          exact ⟨p5, by rw [p4]; exact hp.1, by rw [p1]; exact hp.2⟩
+      generalize write g r d = p at *
+      obtain ⟨r', w⟩ := p
+      dsimp only at h1 hproj ⊢
+      exact ih r' hok' htr' hproj.2 (by rw [hproj.1]; exact hs) h1
+    | flush =>
+      simp only [runB, BOp.toOp, step]
+      have e := flushOp_unfold g r hp
+      refine ih _ hok' htr' ?_ ?_ (flushOp_trk g h0 r hp hk h)
+      · exact ⟨by rw [e]; simp [hp.1], by rw [e]; simp; exact hp.2⟩
+      · rw [e]; simpa using hs
+    | setH k v =>
+      simp only [runB, BOp.toOp, step]
+      exact ih _ hok' htr' hp (sameHead_op h0 _ (.setH k v) (htr _ (List.mem_cons_self ..)) hs) (trk_same h0 r _ rfl rfl h)
+    | addH k v =>
+      simp only [runB, BOp.toOp, step]
+      exact ih _ hok' htr' hp (sameHead_op h0 _ (.addH k v) (htr _ (List.mem_cons_self ..)) hs) (trk_same h0 r _ rfl rfl h)
+    | delH k =>
+      simp only [runB, BOp.toOp, step]
+      exact ih _ hok' htr' hp (sameHead_op h0 _ (.delH k) (htr _ (List.mem_cons_self ..)) hs) (trk_same h0 r _ rfl rfl h)
+
+/-- **C09 stage 2, the trailer fields are the declared ones with the handler's final values.** For body-phase
+programs whose header operations only concern declared trailers: the trailer fields flushResponse sends (the block
+`c09_stage2_trailers` renders and parses back, from the state `eoncodeHead (endState)` the last chunk is built from)
+have as field names EXACTLY the keys the handler declared in `Trailer` before the body phase (duplicates removed, in
+order) — whenever the head was encoded, early or late — and as value of each field the first value the header map
+holds for that key when the handler returns (when it holds one). -/
+theorem c09_stage2_trailer_keys (g : Cfg) (hdr : Header) (sc : Nat) (st : Bytes) (ops : List BOp)
+    (hok : ∀ op ∈ ops, op.ok) (htr : ∀ op ∈ ops, op.trailerOnly (body0 g hdr sc st).header) :
+    (trailerPairs (eoncodeHead g (endState g hdr sc st ops))).map (·.1) =
+      (hget (body0 g hdr sc st).header kTrailer).eraseDups ∧
+    ∀ p ∈ trailerPairs (eoncodeHead g (endState g hdr sc st ops)), ∀ v vs,
+      hget (endState g hdr sc st ops).header p.1 = v :: vs → p.2 = v := by
+  have hp : Pre (body0 g hdr sc st) := pre_prelude g _
+  have hf : Fresh (body0 g hdr sc st) := fresh_prelude g _ ⟨rfl, rfl, rfl, rfl⟩
+  have h0 : TrK (body0 g hdr sc st).header (body0 g hdr sc st) := by
+    intro he; rw [hf.henc] at he; cases he
+  obtain ⟨t1, t2, _⟩ := runB_trk g _ ops (body0 g hdr sc st) hok htr hp ⟨rfl, fun _ _ => rfl⟩ h0
+  have t3 := eoncodeHead_trk g _ _ (t2.2 kTrailer (by decide)) t1
+  have henc : (eoncodeHead g (endState g hdr sc st ops)).headEncoded = true := by
+    unfold eoncodeHead; split
+    · assumption
+    · rfl
+  constructor
+  · unfold trailerPairs
+    rw [List.map_map]
+    have := t3 henc
+    simpa [Function.comp_def] using this
+  · intro p hp' v vs hv
+    unfold trailerPairs at hp'
+    simp only [List.mem_map] at hp'
+    obtain ⟨kv, _, hkv⟩ := hp'
+    subst hkv
+    simp only [eoncodeHead_header] at hv ⊢
+    rw [hv]
 
 /-- trailer split: no declared trailer key appears among the head's handler fields -/
 theorem c09_stage2_split (tk : List Bytes) (h : Header) : ∀ p ∈ handlerPairs tk h, tk.contains p.1 = false := by
@@ -684,30 +795,53 @@ bytes — whether the head buffer is still pending, has been sent, or has moved 
 theorem c09_readfrom_appends (g : Cfg) (hg : g.failAt = 0) (hdr : Header) (sc : Nat) (st : Bytes)
     (ops : List BOp) (hok : ∀ op ∈ ops, op.ok) (hid : (body0 g hdr sc st).chunked = false)
     (k : RKind) (data : Bytes) :
-    ∃ H : Bytes,
+    ∃ rE : R,
+      Line (fun _ => True) (body0 g hdr sc st).statusCode (body0 g hdr sc st).status (body0 g hdr sc st).chunked rE ∧
       (readFrom g (endState g hdr sc st ops) k data).2 = .ok data.length ∧
       (finish g (readFrom g (endState g hdr sc st ops) k data).1).1.wire.flatten =
-        H ++ (accepted g hdr sc st ops).flatten ++ data ∧
+        g.head rE ++ (accepted g hdr sc st ops).flatten ++ data ∧
       (finish g (readFrom g (endState g hdr sc st ops) k data).1).2 =
         (g.reqClose || (endState g hdr sc st ops).closeDelim) := by
   have hf : Fresh (body0 g hdr sc st) := fresh_prelude g _ ⟨rfl, rfl, rfl, rfl⟩
   have hp : Pre (body0 g hdr sc st) := pre_prelude g _
   have hw := start_winv _ hf hp
-  obtain ⟨hd', i1, _, i3, _, _⟩ :=
+  obtain ⟨hd', i1, _, i3, i4, i5⟩ :=
     runB_spec g hg (verdict (body0 g hdr sc st)) ops hok (fun _ => True) (fun _ _ _ _ => trivial) _ _ _
       (body0 g hdr sc st) none [] hw ⟨rfl, rfl, rfl, trivial⟩ (by intro H hH; cases hH)
   have hc : (runB g (body0 g hdr sc st) ops).1.chunked = false := by rw [i3]; exact hid
   have hbase := (i1.idn hc).1.toBase
   obtain ⟨r', e, f1, f2, f3, f4, f5, f6, f7, _, f9⟩ := readFrom_appends g hg _ hd' _ hbase k data
+  -- the head is the encoder's output on a state with the handler's status line and the framing flag
+  have hwh : writeHeader200 (runB g (body0 g hdr sc st) ops).1 = (runB g (body0 g hdr sc st) ops).1 :=
+    writeHeader200_pre _ i1.pre.2
+  have hlE : Line (fun _ => True) (body0 g hdr sc st).statusCode (body0 g hdr sc st).status (body0 g hdr sc st).chunked
+      { writeHeader200 (runB g (body0 g hdr sc st) ops).1 with hasBody := true } := by
+    rw [hwh]; exact ⟨i4.1, i4.2.1, i4.2.2.1, trivial⟩
+  have hho := headOf_after g _ _ _ _ _ hd' hlE i5
+  have hsome : ∃ H, hdAfter g { writeHeader200 (runB g (body0 g hdr sc st) ops).1 with hasBody := true } hd' = some H := by
+    unfold hdAfter
+    split
+    · rename_i he
+      have := hbase.henc
+      rw [hwh] at he
+      have he' : (runB g (body0 g hdr sc st) ops).1.headEncoded = true := he
+      rw [he'] at this
+      cases hd' with
+      | none => simp at this
+      | some x => exact ⟨x, rfl⟩
+    · exact ⟨_, rfl⟩
+  obtain ⟨H, hH⟩ := hsome
+  obtain ⟨rE, hrE, hlrE⟩ := hho H hH
+  rw [hH] at f1
   have hpre : Pre r' := by
     refine ⟨by rw [f6]; exact i1.pre.1, ?_⟩
     rw [f5, writeHeader200_pre _ i1.pre.2]; exact i1.pre.2
   obtain ⟨g1, g2⟩ := finish_sent_pre g hg r' hpre f2 f3 f4 (by rw [f7]; exact hc)
-  refine ⟨(hdAfter g { writeHeader200 (runB g (body0 g hdr sc st) ops).1 with hasBody := true } hd').getD [], ?_, ?_, ?_⟩
+  refine ⟨rE, hlrE, ?_, ?_, ?_⟩
   · show (readFrom g (runB g (body0 g hdr sc st) ops).1 k data).2 = _
     rw [e]
   · show (finish g (readFrom g (runB g (body0 g hdr sc st) ops).1 k data).1).1.wire.flatten = _
-    rw [e, g1, f1, hid, framed_identity]
+    rw [e, g1, f1, hid, framed_identity, ← hrE]
     simp
   · show (finish g (readFrom g (runB g (body0 g hdr sc st) ops).1 k data).1).2 = _
     rw [e]; dsimp only; rw [g2, f9]
